@@ -3,12 +3,20 @@
   on operation lines, so that the translation itself is cross-checked against the real functions.
 -/
 import Knx.Gen.Helpers
+import Knx.Address
+import Knx.Text
 
 open Knx.Gen
 
 def b8 (s : String) : Option (BitVec 8) := s.toNat?.bind fun n => if n < 256 then some (BitVec.ofNat 8 n) else none
 def b16 (s : String) : Option (BitVec 16) := s.toNat?.bind fun n => if n < 65536 then some (BitVec.ofNat 16 n) else none
 def bs (b : Bool) : String := if b then "1" else "0"
+
+def strOfHex (h : String) : Option Knx.Addr.Str := (Knx.Text.unhex h).map (·.map BitVec.toNat)
+def hexOfStr (s : Knx.Addr.Str) : String := Knx.Text.hex (s.map (BitVec.ofNat 8))
+def showAddr : Option (BitVec 16) → String
+  | some a => "ok " ++ toString a.toNat
+  | none => "err"
 
 def runGen (line : String) : String :=
   let r : Option String :=
@@ -26,6 +34,10 @@ def runGen (line : String) : String :=
       let a ← b8 a; let b ← b8 b; let c ← b8 c
       pure (toString (NewGroupAddr3 a b c).toNat)
     | ["ga2", a, b] => do let a ← b8 a; let b ← b16 b; pure (toString (NewGroupAddr2 a b).toNat)
+    | ["pg", h] => do let t ← strOfHex h; pure (showAddr (Knx.Addr.parseGroup t))
+    | ["pi", h] => do let t ← strOfHex h; pure (showAddr (Knx.Addr.parseIndividual t))
+    | ["fg", n] => do let a ← b16 n; pure (hexOfStr (Knx.Addr.formatGroup a))
+    | ["fi", n] => do let a ← b16 n; pure (hexOfStr (Knx.Addr.formatIndividual a))
     | _ => none
   r.getD "bad-op"
 
